@@ -58,12 +58,13 @@ class Engine:
         assert r == z3.sat
         return self.solver.model()
 
-    def explore(self, fn, setup=None):
-        """fn(engine) is executed once per feasible path; returns list of fn's return values."""
+    def explore(self, fn, setup=None, start=None):
+        """fn(engine) is executed once per feasible path; returns list of fn's return values.
+        start: decision prefix to explore below (work splitting)."""
         global ENG
         ENG = self
         results = []
-        stack = [[]]
+        stack = [list(start or [])]
         while stack:
             if self.npaths >= self.max_paths or (self.deadline and time.time() > self.deadline):
                 raise EngineUnknown(f'path budget exhausted after {self.npaths} paths')
@@ -112,10 +113,23 @@ class Engine:
         return d
 
     def choose(self, n, name='choice'):
-        """symbolic choice integer in [0, n): forks into every feasible value (bounded exhaustive exploration)."""
-        for k in range(n - 1):
-            if self.branch(z3.Bool(f'{name}@{self.pos}=={k}')): return k
-        return n - 1
+        """unconstrained choice integer in [0, n): forks into every value (bounded exhaustive exploration; no solver call needed)."""
+        if n <= 1: return 0
+        if self.pos < len(self.log):
+            d = self.log[self.pos]
+            self.pos += 1
+            return d
+        for k in range(n - 1, 0, -1): self.stack.append(self.log + [k])
+        self.nbranches += n - 1
+        self.log.append(0)
+        self.pos += 1
+        return 0
+
+    def pick(self, var, lo, hi):
+        """constrained symbolic integer: concretise by forking over its feasible values in [lo, hi) (solver decides feasibility)."""
+        for k in range(lo, hi):
+            if self.branch(var == k): return k
+        raise Infeasible()
 
 
 # ---------------------------------------------------------------------------------------------------- time values
